@@ -272,3 +272,37 @@ def guarded(fn: Callable[[], Any]) -> tuple[str, Any]:
         return "ok", fn()
     except Exception as e:  # noqa: BLE001
         return "raise", f"{type(e).__name__}: {e}"
+
+
+def run_main(main: Callable[[], Any], prop: str) -> None:
+    """Run a net. An exception that escapes the net from *inside the code under test* (a frame of the tree being checked
+    is on the traceback) is a behaviour the unchanged tree does not show in any scenario of the net: it is reported as a
+    failure of class `exception-in-code-under-test` (with the traceback as replay). Any other exception is a bug of the
+    net itself and is re-raised (the driver reports a machinery error)."""
+    try:
+        main()
+    except SystemExit:
+        raise
+    except Exception as e:  # noqa: BLE001
+        tb = traceback.format_exc()
+        tree = next((a for i, a in enumerate(sys.argv) if i and sys.argv[i - 1] == "--tree"), "")
+        tree = os.path.abspath(tree) if tree else ""
+        frames = traceback.extract_tb(e.__traceback__)
+        if not tree or not any(os.path.abspath(f.filename).startswith(os.path.join(tree, "pyjelly")) for f in frames):
+            raise
+        replays = next((a for i, a in enumerate(sys.argv) if i and sys.argv[i - 1] == "--replays"), "")
+        payload = {"property": prop, "obligation": "bounded-net:exception-in-code-under-test", "class": "exception-in-code-under-test",
+                   "what": f"{type(e).__name__}: {e}", "traceback": tb[-4000:]}
+        path = ""
+        if replays:
+            os.makedirs(replays, exist_ok=True)
+            h = hashlib.sha1(tb.encode()).hexdigest()[:10]
+            path = os.path.join(replays, f"{prop}-bounded-exception-in-code-under-test-{h}.json")
+            with open(path, "w") as f:
+                json.dump(payload, f, indent=1)
+        out = {"label": "bounded", "scope": "aborted by an exception raised in the code under test", "rule": "", "evaluations": 0,
+               "distinct_nontrivial": 0, "samples": [],
+               "failures": [{"class": "exception-in-code-under-test", "what": payload["what"], "replay": path, "input": tb[-600:]}],
+               "failures_n": 1, "wall_s": 0}
+        print(json.dumps(out))
+        sys.exit(0)
